@@ -70,7 +70,14 @@ def _select_resugar(n, norm):
             else:
                 else_body = norm(body)
     branches.sort(key=lambda b: b["i"])
-    node = {"k": "select", "sp": n["sp"], "branches": branches, "disabled_panics": disabled_panics}
+    # polling order: tokio::select! starts at a random branch (`let start = thread_rng_n(BRANCHES)`) unless `biased;` was
+    # written, in which case the branches are always polled in source order (`let start = 0`)
+    fair = None
+    for x in ir.walk(n, into_closures=True):
+        if x["k"] == "slet" and ir.is_node(x.get("pat")) and x["pat"].get("name") == "start" and "select" in (x.get("m") or []) and "init" in x:
+            fair = any(y["k"] == "call" and y.get("fn", "").endswith("thread_rng_n") for y in ir.walk(x["init"]))
+            break
+    node = {"k": "select", "sp": n["sp"], "branches": branches, "disabled_panics": disabled_panics, "fair": fair}
     if "ty" in n:
         node["ty"] = n["ty"]
     if else_body is not None:
